@@ -64,7 +64,10 @@ namespace Givaro
     inline ModularBalanced<int32_t>::Element&
     ModularBalanced<int32_t>::neg(Element& r, const Element& a) const
     {
-        return r = -a;
+        r = -a;
+        // -(p/2) is below the canonical range [p/2-p+1, p/2] when p is even
+        if (r < _mhalfp) r += _p;
+        return r;
     }
 
     inline ModularBalanced<int32_t>::Element&
